@@ -14,6 +14,7 @@
                             'g_p < (size_t)__CPROVER_POINTER_OFFSET(cur) ==> (cl[g_p] != cs[0] || (g_memcmp_d < s_len && cl[g_p + g_memcmp_d] != cs[g_memcmp_d]))'],
              'decreases': 'l_len - (size_t)__CPROVER_POINTER_OFFSET(cur)'}],
  'trusted': ['memchr, memcmp: ISO C 7.24 contracts in contracts/c19_libc.h (host libc on a hosted build; the bundled shim versions are proved by C08)'],
+ 'fallback': 'ghost-free',
  'witness': {'unwind': 8},
 } @*/
 #include "vc.h"
@@ -74,6 +75,19 @@ void harness(void)
     g_mm_watch = g_memcmp_watch;
     g_mm_d = (sn == 0 || sn == 1 || l_p != s[0]) ? 0 : g_memcmp_d;
     __CPROVER_assert(C19_MEMMEM_POST(r, l, ln, s, sn), "memmem: contract clause C19_MEMMEM_POST (first occurrence or NULL)");
+#endif
+#ifdef WITNESS_MODE
+    /* direct reference: naive first-occurrence search (no ghost state) */
+    {
+        char *ref = NULL;
+        if (sn >= 1 && sn <= ln)
+            for (size_t pos = 0; pos + sn <= ln && ref == NULL; pos++) {
+                int eq = 1;
+                for (size_t d = 0; d < sn; d++) eq = eq && l[pos + d] == s[d];
+                if (eq) ref = l + pos;
+            }
+        __CPROVER_assert(r == ref, "memmem: first occurrence or NULL (direct reference)");
+    }
 #endif
     CANARY("memmem harness end reachable");
 }
